@@ -9,7 +9,7 @@ HEAD = "| seeded change | property | what it needs to manifest | caught by (quic
 
 def rows():
     out = []
-    for d in sorted((ROOT / "seeded").iterdir()):
+    for d in sorted((ROOT / "seeded").iterdir(), key=lambda x: int(re.match(r"S(\d+)", x.name).group(1))):
         m = json.loads((d / "meta.json").read_text())
         caught = ", ".join(m["caught_by"]) if m["caught_by"] else ("(not a violation as worded, see below)" if m["note"].startswith("NOT a violation") else "(reported as NOTE, see below)")
         out.append("| `%s` | %s | %s | %s |\n" % (m["id"], m["property"], m["needs_to_manifest"].replace("|", "/"), caught))
